@@ -1,0 +1,65 @@
+//go:build verif
+
+package semver
+
+import "sort"
+
+// VerifOperator is one entry of a system's operator table.
+type VerifOperator struct {
+	Text string
+	Tok  int
+}
+
+// VerifTables holds the package's lookup tables and per-system predicates as
+// plain data, as the code holds them at run time (however they are declared).
+// It exists only for verification builds.
+type VerifTables struct {
+	ByteType            []int
+	OperatorsLen        int               // length of the operator table (indexing past it panics)
+	Operators           [][]VerifOperator // indexed by System, sorted by text; nil if the table has no entry
+	ValidWildcard       [][]int           // indexed by System: accepted runes among the probed ones, ascending
+	SupportsAnd         []bool            // indexed by System
+	MavenQualifierOrder map[string]int
+	Pep440PreStrings    [][2]string // text, canon; in table order
+	Pep440PostStrings   []string
+	MinPre              []string
+}
+
+// VerifGetTables returns the tables for systems 0..nsys-1.
+func VerifGetTables(nsys int) VerifTables {
+	var t VerifTables
+	t.OperatorsLen = len(operators)
+	for _, b := range byteType {
+		t.ByteType = append(t.ByteType, int(b))
+	}
+	for s := 0; s < nsys; s++ {
+		sys := System(s)
+		var ops []VerifOperator
+		if s < len(operators) {
+			ops = []VerifOperator{}
+			for text, tok := range operators[s] {
+				ops = append(ops, VerifOperator{text, int(tok)})
+			}
+			sort.Slice(ops, func(i, j int) bool { return ops[i].Text < ops[j].Text })
+		}
+		t.Operators = append(t.Operators, ops)
+		var wild []int
+		for r := rune(0); r < 0x3000; r++ {
+			if sys.validWildcard(r) {
+				wild = append(wild, int(r))
+			}
+		}
+		t.ValidWildcard = append(t.ValidWildcard, wild)
+		t.SupportsAnd = append(t.SupportsAnd, sys.supportsAnd())
+	}
+	t.MavenQualifierOrder = map[string]int{}
+	for k, v := range mavenVersionQualifierOrder {
+		t.MavenQualifierOrder[k] = v
+	}
+	for _, p := range pep440PreStrings {
+		t.Pep440PreStrings = append(t.Pep440PreStrings, [2]string{p.text, p.canon})
+	}
+	t.Pep440PostStrings = append(t.Pep440PostStrings, pep440PostStrings...)
+	t.MinPre = append(t.MinPre, minPre...)
+	return t
+}
